@@ -16,6 +16,12 @@
 (*   handler/http/server.go     (DrandHandler.state, chainInfoLk, pendingLk*)
 (*   internal/core/drand_beacon.go:storeDKGOutput, drand_daemon.go:        *)
 (*   AddBeaconHandler / dkgCallback          (internal event, Conc part)   *)
+(*   internal/net/listener.go + internal/core/drand_daemon_interceptors.go *)
+(*   every gRPC request first passes NodeVersionValidator / NodeVersion-   *)
+(*   StreamValidator, which are chained BEFORE (outside) the recovery      *)
+(*   interceptor: a panic there is not contained, it kills the process     *)
+(*   (op Fatal).  Only a panic of the handler itself (op Panic) is turned  *)
+(*   into an error.                                                        *)
 (* Locks are NOT re-entrant (sync.Mutex / sync.RWMutex); a read lock is    *)
 (* not granted while a writer waits (Go's RWMutex).  A lock taken with     *)
 (* `defer Unlock` is released by a panic, any other held lock is not.      *)
@@ -74,7 +80,8 @@ Locks == {"dkg", "dd", "hs", "echo"} \cup {BP(c) : c \in Chains} \cup {CI(c) : c
 Acq(l, m, d) == [k |-> "acq", l |-> l, m |-> m, d |-> d]    \* m: "R" | "W"; d: released by defer
 Rel(l)       == [k |-> "rel", l |-> l, m |-> "-", d |-> FALSE]
 Wait         == [k |-> "wait", l |-> "-", m |-> "-", d |-> FALSE]  \* the handler waits for an event while holding its locks
-Panic        == [k |-> "panic", l |-> "-", m |-> "-", d |-> FALSE]
+Panic        == [k |-> "panic", l |-> "-", m |-> "-", d |-> FALSE]  \* in the handler, inside the recovery interceptor
+Fatal        == [k |-> "fatal", l |-> "-", m |-> "-", d |-> FALSE]  \* outside the recovery interceptor: the process dies
 Ret(r)       == [k |-> "ret", l |-> r, m |-> "-", d |-> FALSE]
 
 RECURSIVE SeqOfSet(_)
@@ -96,16 +103,34 @@ Variants    == {"none", "proposal", "proposalNoLeader", "accept", "reject", "abo
 BcastBodies == {"nilDkg", "noMeta", "ok"}                   \* DKGPacket.dkg / its metadata
 HttpBodies(ep) == IF ep = "HttpRound" THEN {"any", "badRound"} ELSE {"any"}
 
+\* what the request announces as node version (metadata.node_version; every prerelease spelling belongs to the
+\* class its numbers put it in): "none" = no metadata / no node_version
+VerClasses == {"none", "compatible", "incompatible"}
+UnaryRouted  == {"PartialBeacon", "PublicRand", "ChainInfo", "GetIdentity", "Status"}
+StreamRouted == {"PublicRandStream", "SyncChain"}
+
+\* the calls enumerated by the exhaustive configurations
 Calls ==
-  [ep : RoutedEps, id : IdToks, hash : HashToks, gm : {"-"}, body : {"any", "next"}]
-  \cup [ep : PlainEps, id : {NoneTok}, hash : {NoneTok}, gm : {"-"}, body : {"any"}]
-  \cup [ep : HttpEps, id : {NoneTok}, hash : HashToks, gm : {"-"}, body : {"any", "badRound"}]
-  \cup [ep : {"DKGPacket"}, id : IdToks, hash : {NoneTok}, gm : GossipMeta, body : Variants]
-  \cup [ep : {"BroadcastDKG"}, id : IdToks, hash : {NoneTok}, gm : {"-"}, body : BcastBodies]
+  [ep : RoutedEps, id : IdToks, hash : HashToks, gm : {"-"}, body : {"any", "next"}, ver : {"none"}]
+  \cup [ep : RoutedEps, id : {DefaultID}, hash : {NoneTok}, gm : {"-"}, body : {"any"}, ver : VerClasses]
+  \cup [ep : PlainEps, id : {NoneTok}, hash : {NoneTok}, gm : {"-"}, body : {"any"}, ver : {"none"}]
+  \cup [ep : HttpEps, id : {NoneTok}, hash : HashToks, gm : {"-"}, body : {"any", "badRound"}, ver : {"none"}]
+  \cup [ep : {"DKGPacket"}, id : IdToks, hash : {NoneTok}, gm : GossipMeta, body : Variants, ver : {"none"}]
+  \cup [ep : {"BroadcastDKG"}, id : IdToks, hash : {NoneTok}, gm : {"-"}, body : BcastBodies, ver : {"none"}]
 
 WellFormed(c) ==
   /\ c.ep \in RoutedEps => c.body \in RoutedBodies(c.ep)
   /\ c.ep \in HttpEps => c.body \in HttpBodies(c.ep)
+  /\ c.ep \notin RoutedEps => c.ver = "none"
+
+\* a call record the programs are defined for (observed calls combine the classes freely)
+KnownCall(c) ==
+  /\ WellFormed(c) /\ c.ver \in VerClasses /\ c.id \in IdToks /\ c.hash \in HashToks
+  /\ \/ c.ep \in RoutedEps /\ c.gm = "-"
+     \/ c.ep \in PlainEps /\ c.gm = "-" /\ c.body = "any"
+     \/ c.ep \in HttpEps /\ c.gm = "-"
+     \/ c.ep = "DKGPacket" /\ c.gm \in GossipMeta /\ c.body \in Variants
+     \/ c.ep = "BroadcastDKG" /\ c.gm = "-" /\ c.body \in BcastBodies
 
 -----------------------------------------------------------------------------
 (* programs                                                                  *)
@@ -177,7 +202,11 @@ HttpOps(s, c) ==
 
 Prog(nsv, c) ==
   LET s == WorldOf[nsv] IN
-  CASE c.ep \in RoutedEps -> RoutedOps(s, c)
+  \* NodeVersionValidator (unary): a request whose metadata announces an incompatible version is refused before the
+  \* handler; it takes no lock and has no panic point (a panic here would be Fatal).  NodeVersionStreamValidator
+  \* looks for the metadata on the service object instead of the request: stream requests are never refused here.
+  CASE c.ep \in UnaryRouted /\ c.ver = "incompatible" -> <<Ret("reject")>>
+    [] c.ep \in RoutedEps -> RoutedOps(s, c)
     [] c.ep = "ListBeaconIDs" -> <<Acq("dd", "R", TRUE), Rel("dd"), Ret("ok")>>
     [] c.ep \in {"Metrics", "HttpChains"} -> <<Ret("ok")>>
     [] c.ep = "ProbeHttpTable" -> <<Acq("hs", "W", TRUE), Rel("hs"), Ret("ok")>>
@@ -223,7 +252,7 @@ RemoveHeld(held, l) ==
        [i \in 1..(Len(held) - 1) |-> IF i < m THEN held[i] ELSE held[i + 1]]
 
 \* Run a program to its end from lock state L when nobody else moves (sequential semantics).
-\* Result: [res |-> "done"|"panic"|"stuck", ret, L, on]   (on = the lock a stuck call waits for)
+\* Result: [res |-> "done"|"panic"|"crash"|"stuck", ret, L, on]   (on = the lock a stuck call waits for)
 RECURSIVE RunSeq(_, _, _, _, _)
 RunSeq(prog, pc, L, t, held) ==
   IF pc > Len(prog) THEN [res |-> "done", ret |-> "ok", L |-> L, on |-> "-"]
@@ -234,6 +263,7 @@ RunSeq(prog, pc, L, t, held) ==
       [] op.k = "rel" -> RunSeq(prog, pc + 1, Drop(L, t, op.l), t, RemoveHeld(held, op.l))
       [] op.k = "wait" -> RunSeq(prog, pc + 1, L, t, held)
       [] op.k = "panic" -> [res |-> "panic", ret |-> "-", L |-> DropAll(L, t, DeferredOf(held)), on |-> "-"]
+      [] op.k = "fatal" -> [res |-> "crash", ret |-> "-", L |-> L, on |-> "-"]
       [] op.k = "ret" -> [res |-> "done", ret |-> op.l, L |-> L, on |-> "-"]
 
 HeldLocks(L) == {l \in Locks : L[l].w # 0 \/ L[l].r # {}}
@@ -248,6 +278,7 @@ ProbeAfter(s, c, p) == ProbeFrom(s, Outcome(s, c).L, p)
 (* Monitors (on observed outcomes; also the invariants of the Seq machine)   *)
 
 Responds(res) == res # "stuck"                    \* every call returns or is rejected
+ProcessAlive(res) == res # "crash"                \* no request kills the process (a panic is contained)
 NoLockLeft(L) == HeldLocks(L) = {}                \* no lock stays held after a call ended
 StillServes(proberes) == proberes # "stuck"       \* a later call on the same / another endpoint returns
 
@@ -276,6 +307,7 @@ SpecSeq == InitE /\ [][NextSeq]_evars
 ViewSeq == <<ns, lk, {th[t].status : t \in DOMAIN th}>>
 
 Inv_Responds   == \A t \in DOMAIN th : Responds(th[t].status)
+Inv_ProcessAlive == \A t \in DOMAIN th : ProcessAlive(th[t].status)
 Inv_NoLockLeft == (\A t \in DOMAIN th : th[t].status # "stuck") => NoLockLeft(lk)
 \* every program that returns releases what it acquired, in every state (static well-formedness of the
 \* transcription; a constant-level formula, checked once by an ASSUME of the MC module)
@@ -315,6 +347,7 @@ StepC(t) ==
        [] op.k = "wait" -> lk' = lk /\ th' = [th EXCEPT ![t].pc = @ + 1]
        [] op.k = "panic" -> /\ lk' = DropAll(lk, t, DeferredOf(th[t].held))
                             /\ th' = [th EXCEPT ![t].status = "panic", ![t].held = KeptOf(@)]
+       [] op.k = "fatal" -> lk' = lk /\ th' = [th EXCEPT ![t].status = "crash"]
        [] op.k = "ret" -> lk' = lk /\ th' = [th EXCEPT ![t].status = "done"]
   /\ UNCHANGED <<st, steps, last, ns, nxt>>
 
@@ -329,7 +362,7 @@ HoldPairs(prog, pc, held) ==
     CASE op.k = "acq" -> {<<held[i].l, held[i].m, op.l, op.m>> : i \in DOMAIN held}
                          \cup HoldPairs(prog, pc + 1, Append(held, [l |-> op.l, m |-> op.m]))
       [] op.k = "rel" -> HoldPairs(prog, pc + 1, RemoveHeld(held, op.l))
-      [] op.k \in {"panic", "ret"} -> {}
+      [] op.k \in {"panic", "fatal", "ret"} -> {}
       [] OTHER -> HoldPairs(prog, pc + 1, held)
 Conflicts(m1, m2) == ~(m1 = "R" /\ m2 = "R")
 \* thread 1 holds A and wants B while thread 2 holds B and wants A
